@@ -3,11 +3,31 @@ import simcheck
 import simmon
 
 TRUSTED = simcheck.TRUSTED_SIM + [
-    "the clauses 'never starts earlier than the time its scheduler chose' and 'starts exactly then when ready and the pool "
-    "can hold it' are decided by the monitor on the implementation's logs only (the machine does not model the event queue; "
-    "the queue ordering itself is C16)"]
+    "Model/SimQ.v extends the machine with the pending-event multiset; its queue operations are observed on the simulator's "
+    "own EventQueue object (add_event / next / remove_event / reheapify) and fed to the machine (stream S-simq)",
+    "the clause 'starts exactly at the chosen time when ready and the pool can hold it' is decided by the monitor on the "
+    "implementation's logs only"]
 
 
 def run(ctx):
-    simcheck.run_sim_property(ctx, ["C03"], lambda r, w: simmon.mon_c03(r, w["flags"].get("runtime_variance", 0)),
-                              "clock / runtime / start-time clause of C03 fails on the implementation's own call log")
+    import core
+    import json
+    import simcommon
+    worlds, runs = simcheck.run_sim_property(
+        ctx, ["C03"], lambda r, w: simmon.mon_c03(r, w["flags"].get("runtime_variance", 0)),
+        "clock / runtime / start-time clause of C03 fails on the implementation's own call log",
+        deps=["Model/SimQ.v"])
+    # the machine with the event queue must accept the same runs (queue operations included)
+    try:
+        mism, fed = simcommon.machine_q_stream(ctx, worlds, runs)
+    except core.ModelEvalError as e:
+        ctx.broken.append({"kind": "correspondence", "name": "S-simq (machine does not evaluate)", "detail": str(e)[-500:]})
+        mism = []
+    for (i, mv, exp) in mism[:3]:
+        rej = mv[0] if isinstance(mv, list) and mv else None
+        ctx.violation("simq_world%d" % i, {
+            "stream": "S-simq", "world": worlds[i], "model": mv, "implementation": exp,
+            "what": ("the machine with the event queue rejects the implementation's log at entry %s: an event queued in the "
+                     "past, a popped event that was not minimal / not at the clock, a handled event that was not the one "
+                     "popped, or a placement event earlier than the chosen time" % rej[0]) if rej else
+                    "accepted but the final state differs"})
